@@ -2192,3 +2192,109 @@ func ruleSearchFirst(c *Ctx, r *Rep) {
 		r.Undecided("searchfirst:census", token.NoPos, "lookupModule does not prepend a directory to its list of paths")
 	}
 }
+
+// ---------------------------------------------------------------------------------------------------------------------
+// R-C17-yamlbom: the YAML parser's character index does not count a byte-order mark; the command's text does.
+
+func init() {
+	reg(&Rule{ID: "R-C17-yamlbom", Props: []string{"C17"}, Floor: 1,
+		Doc: "premise, read from the YAML dependency: the function that recognises a byte-order mark steps over it in the raw buffer and in the byte offset but does not advance the mark's character index, so every Index the library reports is short by one against a text that still starts with the mark. Every function of the command that converts such an index into a position in the captured text (it reads `.Index` of a value of the dependency, or is handed the result) therefore mentions the mark — U+FEFF — itself",
+		Run: ruleYAMLBOM})
+	addDecided("C17", " Where a YAML character index is turned into a text position, a leading byte-order mark is accounted for (R-C17-yamlbom; D57).")
+}
+
+func ruleYAMLBOM(c *Ctx, r *Rep) {
+	// premise
+	seen, advancesIndex := false, false
+	packages.Visit(c.All, nil, func(dp *packages.Package) {
+		if dp.Types == nil || !isYAMLPkg(dp.Types) {
+			return
+		}
+		for _, f := range dp.Syntax {
+			for _, d := range f.Decls {
+				fd, ok := d.(*ast.FuncDecl)
+				if !ok || fd.Body == nil {
+					continue
+				}
+				mentionsBOM := false
+				ast.Inspect(fd.Body, func(m ast.Node) bool {
+					if id, ok := m.(*ast.Ident); ok && strings.Contains(strings.ToLower(id.Name), "bom") && strings.Contains(strings.ToLower(id.Name), "utf8") {
+						mentionsBOM = true
+					}
+					return true
+				})
+				if !mentionsBOM {
+					continue
+				}
+				seen = true
+				ast.Inspect(fd.Body, func(m ast.Node) bool {
+					switch x := m.(type) {
+					case *ast.AssignStmt:
+						for _, l := range x.Lhs {
+							if sel, ok := unparen(l).(*ast.SelectorExpr); ok && sel.Sel.Name == "index" {
+								advancesIndex = true
+							}
+						}
+					case *ast.IncDecStmt:
+						if sel, ok := unparen(x.X).(*ast.SelectorExpr); ok && sel.Sel.Name == "index" {
+							advancesIndex = true
+						}
+					}
+					return true
+				})
+			}
+		}
+	})
+	if !seen {
+		r.Undecided("yamlbom:premise", token.NoPos, "no function of the YAML dependency recognises a UTF-8 byte-order mark")
+		return
+	}
+	if advancesIndex {
+		r.OK("yamlbom:premise", token.NoPos, "the dependency counts the byte-order mark in its character index")
+		return
+	}
+	p := c.Cli
+	info := p.TypesInfo
+	n := 0
+	for _, fd := range c.Decls(p) {
+		usesIndex := false
+		ast.Inspect(fd.Body, func(m ast.Node) bool {
+			sel, ok := m.(*ast.SelectorExpr)
+			if !ok || sel.Sel.Name != "Index" {
+				return true
+			}
+			if nt, ok := derefNamedType(info.TypeOf(sel.X)); ok && isYAMLPkg(nt.Obj().Pkg()) {
+				usesIndex = true
+			}
+			return true
+		})
+		if !usesIndex {
+			continue
+		}
+		n++
+		hasBOM := false
+		ast.Inspect(fd.Body, func(m ast.Node) bool {
+			if e, ok := m.(ast.Expr); ok {
+				if s, ok := constStrOrRune(info, e); ok && (s == "\ufeff" || s == "\xef\xbb\xbf") {
+					hasBOM = true
+				}
+			}
+			return true
+		})
+		r.Check(hasBOM, "yamlbom:"+declKey(fd), fd.Pos(), "%s turns a character index reported by the YAML dependency into a position in the captured text and accounts for a leading byte-order mark: %v — `printf '\\xef\\xbb\\xbfa: 1\\nb: x: 2\\n' | gojq --yaml-input .` puts the caret one column left of the offending `:`", declKey(fd), hasBOM)
+	}
+	if n == 0 {
+		r.Undecided("yamlbom:census", token.NoPos, "no function of the command reads the Index of a value of the YAML dependency")
+	}
+}
+
+func derefNamedType(t types.Type) (*types.Named, bool) {
+	if t == nil {
+		return nil, false
+	}
+	if p, ok := t.(*types.Pointer); ok {
+		t = p.Elem()
+	}
+	nt, ok := t.(*types.Named)
+	return nt, ok
+}
